@@ -39,6 +39,13 @@ func main() {
 		rc := cmdVerify(os.Args[2:])
 		cleanupWorkDir()
 		os.Exit(rc)
+	case "check":
+		initWorkDir()
+		rc := cmdCheck(os.Args[2:])
+		cleanupWorkDir()
+		os.Exit(rc)
+	case "replay":
+		os.Exit(cmdReplay(os.Args[2:]))
 	case "globals":
 		P, err := loadProgram("verif")
 		if err != nil {
